@@ -31,6 +31,9 @@ def run(tier, replay=None):
     # the plain build is there for the allocator: ASan's quarantine keeps freed addresses from being reused,
     # the address-reuse observations (pointer hashes) need a run in which they are
     tags = ["gasan", "plain"] if tier == "quick" else ["gasan", "casan", "plain"]
+    import shutil
+    if shutil.which("valgrind"):
+        tags.append("memcheck")   # the smallest grids on the uninstrumented build under valgrind (uninitialised values)
     total = {}
     conc = collections.Counter()
     if replay:
@@ -40,11 +43,13 @@ def run(tier, replay=None):
             mtindep.replay(run_, rcase, conc)
             return run_.finish(10, 1, RULE)
     for tag in tags:
-        exe = build.build_exe(tag, ["hashgrid.cpp"])
+        exe = build.build_exe(tag if tag != "memcheck" else "plain", ["hashgrid.cpp"])
         env = dict(os.environ)
         env.update(driver.SAN_ENV)
         try:
-            p = subprocess.run([exe, str(scale), str(run_.seed)], capture_output=True, env=env, timeout=1800)
+            cmd = [exe, str(scale), str(run_.seed)] if tag != "memcheck" else \
+                list(driver.MEMCHECK) + [exe, "1" if tier == "quick" else "2", str(run_.seed)]
+            p = subprocess.run(cmd, capture_output=True, env=env, timeout=3600)
         except subprocess.TimeoutExpired:
             run_.inconc("wall-clock watchdog fired")
             continue
